@@ -140,6 +140,7 @@ def run(ctx, model):
     from props import kernels
     kernels.run_masks(ctx, model, "C02")
     kernels.run_boolwin(ctx, model, "C02")
+    kernels.run_msgs(ctx, model, "C02")
     rng = ctx.rng
     n = ctx.budget(80, 900)
     for i in range(n):
